@@ -24,6 +24,13 @@ def bitLen (n : Nat) : Nat := if n = 0 then 0 else Nat.log2 n + 1
 /-- number of `W`-bit words of `n` (`locate_top_word_plus_one` of its buffer) -/
 def wordLen (W n : Nat) : Nat := (bitLen n + W - 1) / W
 
+/-- `trailing_zeros` of a non-zero number (structural on fuel = the number itself) -/
+def tzLoop : Nat â†’ Nat â†’ Nat
+  | 0, _ => 0
+  | fuel + 1, n => if n % 2 = 1 âˆ¨ n = 0 then 0 else tzLoop fuel (n / 2) + 1
+
+def trailingZeros (n : Nat) : Nat := tzLoop n n
+
 /-- which of the three `ConstDivisorRepr` variants -/
 inductive Kind | single | double | large
   deriving DecidableEq, Repr
@@ -252,7 +259,7 @@ def powWindowLoop (W : Nat) (r : Ring) (exp wl : Nat) (table : List Nat) : Nat â
       if exp.testBit bit then
         -- window of `wl` bits ending at `bit` (zero-extended below bit 0), top bit 1
         let window := (exp * 2 ^ wl / 2 ^ (bit + 1)) % 2 ^ wl
-        let tz := (List.range wl).findIdx (fun i => window.testBit i)   -- trailing_zeros
+        let tz := trailingZeros window                                   -- trailing_zeros
         let numBits := wl - tz
         let window := window / 2 ^ (wl - numBits)
         let val := (List.range (numBits - 1)).foldl (fun v _ => mulNormalized W r v v) val
